@@ -471,6 +471,63 @@ def byte_sets(prog, fpath):
     return f, sets, lo, width
 
 
+def check_safe_marking_closures(ctx, prog, tag, in_scope, safe, is_safe, raw):
+    thru = lambda k: 0 if k.name.endswith(("::deref", "::deref_mut", "::as_str", "::as_ref", "::borrow", "Try>::branch",
+                                           "::as_mut_str", "::into", "String::from", "::to_string", "::to_owned")) and k.name not in raw else None
+    # ---- S3e (round 12, seed C02-12): the same, when the safe-marking call sits in a closure or private helper of a
+    # filter and marks its *parameter* (`let finish = |text| if markup { from_safe_string(text) } ..`).  Whatever the
+    # condition inside says about the parts, the text itself is chosen where the closure is called: raw text of a value
+    # (`as_str()` / `to_string()` of it) handed over outside an is_safe() test of that very value is printed unescaped
+    # whenever the condition holds for another reason (a safe `end` string).  Buffers the caller assembled are S3d's.
+    n3e = 0
+    for g in prog.fns.values():
+        if not in_scope(g):
+            continue
+        if g.kind != "closure" and g.is_pub:
+            continue
+        params = set()
+        for sc in g.calls_to(safe):
+            for o in flow.origins(g, sc.args[0], through_calls=thru):
+                if o.kind == "arg":
+                    params.add(o.arg)
+        if not params:
+            continue
+        for c in prog.callers().get(g.path, []):
+            h = c.fn
+            for k in sorted(params):
+                pieces = []
+                if g.kind == "closure":
+                    # a closure is called with its arguments in a tuple: parameter k is element k - 2 of it
+                    for o in (flow.origins(h, c.args[1]) if len(c.args) > 1 else []):
+                        if o.kind == "agg" and o.rv.get("agg") == "tuple" and k - 2 < len(o.rv["ops"]):
+                            pieces.append(o.rv["ops"][k - 2])
+                elif k - 1 < len(c.args):
+                    pieces.append(c.args[k - 1])
+                pieces = [x for x in pieces if "c" not in x]
+                if not pieces:
+                    continue
+                n3e += 1
+                piece = pieces[0]
+                bad = []
+                thru2 = lambda q: 0 if (thru(q) == 0 or q.name.endswith(("Option::unwrap", "Option::expect", "Result::unwrap", "Option::unwrap_or_default",
+                                                                           "Option::ok_or_else", "Option::ok_or", "Option::unwrap_or"))) else None
+                for o in flow.origins(h, piece, through_calls=thru2):
+                    if o.kind == "call" and o.call.name in raw:
+                        if all(x.kind == "call" and x.call.name in ESCAPERS for x in flow.origins(h, o.call.args[0], through_calls=thru2)):
+                            continue
+                        recv = {x.key() for x in flow.origins(h, o.call.args[0])}
+                        tested = any(gg[0] == "call" and gg[1] in is_safe and gg[2] is True and recv & {
+                            x.key() for x in flow.origins(h, gg[3].args[0])} for gg in flow.guard_facts(prog, h, c.bb))
+                        if not tested:
+                            bad.append("raw text of a value not tested with is_safe() (%s)" % o.call.name.split("::")[-1])
+                ctx.ob("C02.S3.safe-marking-closure-gets-no-untested-raw-text", tag + "%s|%s#%d" % (h.path, g.path.split("::")[-1], n3e), not bad,
+                       "%s hands %s to %s, which can mark its argument safe: the text reaches the output unescaped whenever the "
+                       "closure's condition holds for another reason" % (h.path.split("::")[-1], "; ".join(sorted(set(bad))), g.path.split("::")[-1]),
+                       h.where(c.bb))
+    ctx.count("C02.S3e texts handed to safe-marking closures / helpers", n3e)
+    return n3e
+
+
 def run(ctx):
     ctx.explain("C02: who-may-write rule for Output (single escape choke point), a guard rule classifying every raw "
                 "write in the choke point under an enumerated safe-content condition, a reviewed inventory plus "
@@ -885,6 +942,19 @@ def run(ctx):
                        "a String that is returned through from_safe_string is extended with %s: that piece reaches the "
                        "output unescaped" % "; ".join(sorted(set(bad))), f.where(c.bb))
     ctx.count("C02.S3d pieces appended to safe buffers", n3d)
+
+    def _s3e_scope(g):
+        return g.crate in ("minijinja", "minijinja_contrib") and g.path not in SAFE_MARKERS and (
+            g.loc.f.endswith("filters.rs") or g.loc.f.endswith("filters/mod.rs") or g.loc.f.endswith("functions.rs")
+            or g.loc.f.endswith("globals.rs"))
+    n3e = check_safe_marking_closures(ctx, prog, "", _s3e_scope, SAFE, IS_SAFE, RAW_ACCESSORS)
+    ctx.count("C02.S3e texts handed to safe-marking closures / helpers", n3e)
+    sub3e = ctx.fresh()
+    check_safe_marking_closures(sub3e, ctx.controls, "control:", lambda g: g.path.startswith("mjsa_controls::c02::"),
+                                "mjsa_controls::c02::Value::from_safe_string", ("mjsa_controls::c02::Value::is_safe",),
+                                ("mjsa_controls::c02::Value::as_str",))
+    bad3e = [o for o in sub3e.obligations if not o[2]]
+    ctx.control("C02.S3e", len(bad3e) == 1 and "shorten_marks_raw_text" in bad3e[0][1] and len(sub3e.obligations) >= 2)
 
     # ---- S6: which templates are auto-escaped at all.  The default callback compares the last extension of the template
     # name (after an ignored `.j2`/`.jinja`/`.jinja2`) for equality with string constants; the documented HTML
